@@ -76,7 +76,7 @@ func RunC19(r *core.Run) {
 	r.Rule = "case = one grammar-generated request (any permutation/subset of the fingerprinted headers Call-ID, Contact, CSeq, From, Max-Forwards, To, Via, User-Agent in long or compact form, fillers in between) plus derived variants that keep the documented key: other headers inserted / removed / their values changed, fingerprinted headers repeated later (also in the other form), values of To / CSeq / Max-Forwards / User-Agent / Contact and the non-tag part of From changed, other chunk schedule, header capacity >= N: signature and ErrHdrOk must be unchanged; capacity < N: same signature or ErrHdrTrunc; replies: ErrHdrEmpty; components: (CidSig,CidSLen) == GetCallIDSig(call-id text), ViaBSig == GetViaBrSig(first Via value), HdrSigLen == number of distinct fingerprinted header types present (Contact only for INVITE) <= 8 with distinct entries whose compact bit matches the first occurrence; String() matches ^$|^[0-9a-f]{1,9}I[0-9a-f]{6}F[0-9a-f]{4}V[0-9a-f]{4}$; non-trivial = base request signed and at least one variant compared; distinct by hash"
 	r.Assume = []string{"'first Via' = the value of the first Via header line as the header tokeniser reports it", "variants never add or remove a Content-Length header (messages are parsed in skip-body mode)"}
 	kinds := []int{gen.HFrom, gen.HTo, gen.HCallID, gen.HCSeq, gen.HVia, gen.HVia, gen.HMaxFwd, gen.HContact, gen.HUA, gen.HOtherKind, gen.HOtherKind, gen.HRoute, gen.HExpires, gen.HPAI, gen.HNearMiss}
-	n := r.Pick(400000, 8000000)
+	n := r.Pick(400000, 32000000)
 	r.Stage("requests+variants", n, func(w *core.Worker, idx int64) {
 		rr := core.NewRand(r.Seed, 0xC19, 1, uint64(idx))
 		m := gen.Msg(rr, gen.MsgOpts{Request: 1, MinHdrs: 2, MaxHdrs: 14, Kinds: kinds, CLenMode: 1, MultiNA: 30, NoBody: rr.Bool()})
